@@ -222,7 +222,18 @@ impl Monitor for C10 {
         };
         let mut names: BTreeMap<u32, String> = BTreeMap::new();
         for id in want.iter().chain(beyond.iter()) {
-            names.entry(*id).or_insert_with(|| if rng.chance(1, 12) { String::new() } else { format!("{} #{id}", gen_name(&mut rng, NameMode::Mixed)) });
+            names.entry(*id).or_insert_with(|| {
+                if rng.chance(1, 12) {
+                    String::new()
+                } else if want.len() <= 64 && rng.chance(1, 10) {
+                    // names at the upper end of what a binary term record can hold (246..=255 bytes)
+                    let total = rng.urange(246, 255);
+                    let tail = format!(" #{id}");
+                    format!("{}{tail}", "n".repeat(total - tail.len()))
+                } else {
+                    format!("{} #{id}", gen_name(&mut rng, NameMode::Mixed))
+                }
+            });
         }
 
         // ---- records
@@ -308,6 +319,20 @@ impl Monitor for C10 {
                         (0, Some(t)) => c.annotate_gene(GeneId::from(r.id), &r.name, HpoTermId::from_u32(*t)).unwrap(),
                         (1, Some(t)) => c.annotate_omim_disease(OmimDiseaseId::from(r.id), &r.name, HpoTermId::from_u32(*t)).unwrap(),
                         (_, Some(t)) => c.annotate_orpha_disease(OrphaDiseaseId::from(r.id), &r.name, HpoTermId::from_u32(*t)).unwrap(),
+                    }
+                }
+            }
+            // refused calls (absent term) for records that exist already: the record stays what it was
+            {
+                let absent = HpoTermId::from_u32((0..).map(|i| 9_999_990u32 - i).find(|x| !added.contains(x)).unwrap());
+                for k in 0..3 {
+                    for r in f.recs[k].iter().filter(|r| r.id % 2 == 1) {
+                        let res = match k {
+                            0 => c.annotate_gene(GeneId::from(r.id), &r.name, absent).is_err(),
+                            1 => c.annotate_omim_disease(OmimDiseaseId::from(r.id), &r.name, absent).is_err(),
+                            _ => c.annotate_orpha_disease(OrphaDiseaseId::from(r.id), &r.name, absent).is_err(),
+                        };
+                        assert!(res, "annotate_* with an absent term must be refused");
                     }
                 }
             }
